@@ -118,6 +118,7 @@ def direct_diffuse(ctx, rng, ncfg, nev):
         cfg.simulation.angle_from_limb = float(rng.choice([0.1, 0.5, 0.9]) * aH) if (rng.random() < 0.6 or np.radians(7) >= aH) else cfg.simulation.angle_from_limb
         cfg.simulation.max_cherenkov_angle = float(np.radians(rng.choice([0.5, 3.0, 20.0, 60.0])))
         cfg.simulation.max_azimuth_angle = float(np.radians(rng.choice([1.0, 90.0, 360.0])))
+        cfg = core.validated(cfg, "C03 diffuse configuration")
         wit = {"mode": "Diffuse", "altitude": alt, "limb": cfg.simulation.angle_from_limb, "cone": cfg.simulation.max_cherenkov_angle, "az": cfg.simulation.max_azimuth_angle}
         g = RegionGeom(cfg)
         N = int(nev)
@@ -219,7 +220,7 @@ def target_cfg(rng, k):
     if k % 4 == 2:
         c.detector.sun_moon.sun_alt_cut = float(np.radians(rng.uniform(-30, 10)))
         c.detector.sun_moon.moon_min_phase_angle_cut = float(np.radians(rng.uniform(0, 180)))
-    return c
+    return core.validated(c, "C03 target configuration")
 
 
 def direct_target(ctx, rng, ncfg, nev):
@@ -381,6 +382,7 @@ def fullruns(ctx, si, payload):
         cfg.detector.optical.photo_electron_threshold = thr_o
         cfg.detector.radio.snr_threshold = thr_r
         cfg.detector.sun_moon.sun_moon_cuts = smc
+        cfg = core.validated(cfg, f"C03 full run {spec}")
         wit = {"run": list(map(str, spec))}
         sim, log = fullrun.compute(cfg, seed=int(rng.integers(2**31)))
         if log.exception is not None:
